@@ -80,3 +80,44 @@ Proof.
   split; [exact (same_verdict_domains_only lower l email ans H) | exact (same_verdict_groups_only lower l email ans H)].
 Qed.
 Print Assumptions C11_same_verdict_single_kind_partial.
+
+(* For EVERY policy (mixed rule kinds included): the two later gates together are exactly ALL-OF over
+   the configured validators, while login is ANY-OF (C11_login_any_of) ... *)
+Theorem C11_later_is_all_of : forall (lower : str -> str) p email ans,
+  request_gate lower p email && revalidation_gate p ans =
+  forallb (run_validator lower email ans) (validators_of lower p).
+Proof. exact later_is_all_of. Qed.
+Print Assumptions C11_later_is_all_of.
+
+(* ... hence every divergence of the known findings C11-K1/K2 FAILS CLOSED: whoever passes both later
+   gates under a policy with at least one rule would also have been admitted at login on the same
+   facts — no session is ever served later that the login gate would have refused. *)
+Theorem C11_later_verdict_implies_login : forall (lower : str -> str) p email ans,
+  (p_addresses p <> [] \/ p_domains p <> [] \/ p_groups p <> []) ->
+  request_gate lower p email = true -> revalidation_gate p ans = true ->
+  login_gate lower p email ans = true.
+Proof.
+  intros lower p email ans H. apply later_implies_login. apply validators_nonempty_iff. exact H.
+Qed.
+Print Assumptions C11_later_verdict_implies_login.
+
+(* Exact characterisation of the clause at full strength: login and later verdicts coincide on
+   (p, email, answer) iff the configured validators are unanimous there. Single-kind policies are the
+   special case of one validator (C11_same_verdict_single_kind_partial); the refutation witnesses are
+   two-validator policies on which the validators disagree. *)
+Theorem C11_same_verdict_iff_unanimous : forall (lower : str -> str) p email ans,
+  (p_addresses p <> [] \/ p_domains p <> [] \/ p_groups p <> []) ->
+  (login_gate lower p email ans = request_gate lower p email && revalidation_gate p ans <->
+   forall v w, In v (validators_of lower p) -> In w (validators_of lower p) ->
+     run_validator lower email ans v = run_validator lower email ans w).
+Proof.
+  intros lower p email ans H. apply same_verdict_iff_unanimous. apply validators_nonempty_iff. exact H.
+Qed.
+Print Assumptions C11_same_verdict_iff_unanimous.
+
+(* non-vacuity: a mixed policy whose three validators all pass — premises of the two theorems hold *)
+Example C11_later_nonvacuous :
+  let p := {| p_addresses := [bob_b]; p_domains := [[98;46;99;111;109]]; p_groups := [g1] |} in
+  request_gate lower_ascii p bob_b = true /\ revalidation_gate p (GroupsOk [g1]) = true /\
+  login_gate lower_ascii p bob_b (GroupsOk [g1]) = true.
+Proof. vm_compute. repeat split; reflexivity. Qed.
